@@ -19,13 +19,15 @@ UNITS = {
     "dnow": [()],
     "naming": [()],
     "listing": [()],
+    "swrite": [()],
+    "stdw": [("async",)],
 }
 
 # property -> list of (unit, features)
 PROP_UNITS = {
-    "C01": [("state", ()), ("handle", ())],
+    "C01": [("state", ()), ("handle", ()), ("swrite", ())],
     "C02": [("spec", TF), ("logger", TF), ("handle_c", TF), ("handle_d", TF)],
-    "C04": [("state", ()), ("handle", ()), ("flw", ()), ("primary", ()), ("dispatch", ("async",))],
+    "C04": [("state", ()), ("handle", ()), ("flw", ()), ("primary", ()), ("dispatch", ("async",)), ("stdw", ("async",))],
     "C05": [("handle_a", TF), ("handle_b", TF), ("handle_b2", TF), ("handle_c", TF), ("spec", TF)],
     "C06": [("state", ()), ("timestamps", ()), ("builder", ())],
     "C07": [("state", ()), ("listing", ())],
@@ -33,10 +35,11 @@ PROP_UNITS = {
     "C09": [("state", ()), ("timestamps", ())],
     "C13": [("logger", TF), ("flw", ()), ("multi", ()), ("primary", ()), ("lh", TF)],
     "C14": [("state", ()), ("listing", ()), ("naming", ()), ("timestamps", ())],
-    "C15": [("state", ()), ("handle", ()), ("flw", ()), ("dispatch", ("async",)), ("handle_async", ("async",))],
+    "C15": [("state", ()), ("handle", ()), ("flw", ()), ("dispatch", ("async",)), ("handle_async", ("async",)), ("swrite", ()), ("stdw", ("async",))],
     "C16": [("naming", ()), ("listing", ()), ("state", ()), ("builder", ())],
     "C18": [("state", ()), ("handle", ()), ("builder", ()), ("lh", TF)],
-    "C19": [("state", ()), ("logger", TF), ("multi", ()), ("timestamps", ())],
+    "C19": [("state", ()), ("logger", TF), ("multi", ()), ("timestamps", ()), ("swrite", ())],
+    "C20": [("swrite", ()), ("stdw", ("async",)), ("handle_async", ("async",)), ("dnow", ())],
 }
 
 # property -> Kani groups (see lib/kani_unit.py)
